@@ -54,6 +54,9 @@ def encryptors():
 
 
 def decryptor(kind):
+    if kind == "eccpub":
+        from bec2format.bec2file import EccEncryptor
+        return [EccEncryptor(0, FX.priv_key(SCAL[0]).public_key), EccEncryptor(2, FX.priv_key(SCAL[2]).public_key)]
     return {"cust": lambda: [SoftwareCustKeyEncryptor(CKEY)],
             "ecc": lambda: [EccDecryptor(0, FX.priv_key(SCAL[0])), EccDecryptor(2, FX.priv_key(SCAL[2]))],
             "upd": lambda: [ConfigSecurityCodeEncryptor(CODE)]}[kind]()
@@ -70,11 +73,14 @@ class St:
         self.keys = []                # session keys of all objects created in this history
         self.points = []              # ephemeral points of all packed ECC blocks in this history
         self.encs = encryptors()      # the caller's encryptor objects live as long as the history (as in the appnotes)
+        self.kept = [set(), set()]    # per slot: tags of blocks the last Read had no decryptor for (must be kept byte-for-byte)
 
 
 KINDS = {1: "cust", 3: "ecc", 2: "upd"}
 OPS = ([("new",), ("newkey", 1), ("newkey", 2), ("switch",), ("add", "cust"), ("add", "ecc", 0), ("add", "ecc", 2), ("add", "upd"),
-        ("write",)] + [("read",) + c for n in (1, 2, 3) for c in combinations(("cust", "ecc", "upd"), n)])
+        ("write",)] + [("read",) + c for n in (1, 2, 3) for c in combinations(("cust", "ecc", "upd"), n)]
+       # decryptor sets in which the ECC block is only matched by an encrypt-only (public key) EccEncryptor
+       + [("read", "cust", "eccpub"), ("read", "upd", "eccpub"), ("read", "cust", "upd", "eccpub")])
 
 
 def canon(st):
@@ -85,7 +91,7 @@ def canon(st):
             out.append(None)
             continue
         blocks = tuple((b.tag, type(b).__name__, getattr(b, "key_selector", None)) for b in o.auth_blocks.values())
-        out.append((st.origin[i], blocks, st.texts[i] is not None))
+        out.append((st.origin[i], blocks, st.texts[i] is not None, tuple(sorted(st.kept[i]))))
     return tuple(out)
 
 
@@ -126,6 +132,7 @@ def step(st, op):
             st.origin[slot] = "K%d" % op[1]
         st.keys.append(b.session_key)
         st.objs[slot], st.texts[slot], st.raws[slot], st.cur = b, None, None, slot
+        st.kept[slot] = set()
         return st, o
     if kind == "switch":
         if st.objs[1 - i] is None:
@@ -141,6 +148,7 @@ def step(st, op):
         if tag in obj.auth_blocks and type(obj.auth_blocks[tag]) is type(blk) and getattr(blk, "key_selector", 0) == getattr(obj.auth_blocks[tag], "key_selector", 0):
             return None
         obj.add_auth_block(blk)
+        st.kept[i].discard(tag)
         st.texts[i] = None
         return st, o
     if kind == "write":
@@ -160,7 +168,10 @@ def step(st, op):
             return None
         kinds_present = [KINDS[t] for t in obj.auth_blocks]
         D = op[1:]
-        if not set(D) <= set(kinds_present):
+        if "eccpub" in D:
+            if "ecc" not in kinds_present or not (set(D) - {"eccpub"}) <= set(kinds_present):
+                return None
+        elif not set(D) <= set(kinds_present):
             return None
         decs = sum((decryptor(k) for k in D), [])
         with rnd:
@@ -173,9 +184,13 @@ def step(st, op):
             exp_types.append((t, "UnknownAuthBlock" if KINDS[t] not in D else
                               {1: "InitCustKeyAuthBlock", 3: "InitEccAuthBlock", 2: "UpdateAuthBlock"}[t]))
         got_types = [(t, type(b).__name__) for t, b in r.auth_blocks.items()]
-        if got_types != exp_types:
+        # only the opened blocks have a prescribed type; how an unopened block is represented is an implementation detail
+        # (what matters - it is kept byte-for-byte on the next write - is checked there)
+        if [t for t, _ in got_types] != [t for t, _ in exp_types] or any(
+                g != e for g, e in zip(got_types, exp_types) if e[1] != "UnknownAuthBlock"):
             o.viol("read|blocks", "blocks read as %r, expected %r" % (got_types, exp_types))
         st.objs[i] = r
+        st.kept[i] = {t for t in obj.auth_blocks if KINDS[t] not in D}
         return st, o
     raise ValueError(op)
 
@@ -192,6 +207,10 @@ def check_written(st, i, obj, binary, rnd, o):
     packed_ecc = 0
     for (tag, raw), b in zip(blocks, objblocks):
         unknown = isinstance(b, UnknownAuthBlock)
+        if tag in st.kept[i] and not unknown:
+            prev = dict((t, r) for t, r in (st.raws[i] or []))
+            if prev.get(tag) != raw:
+                o.viol("keep|undecryptable-block-rewritten", "the block with tag %d, for which the preceding read had no decryptor, was re-wrapped instead of being kept byte-for-byte" % tag)
         if unknown:
             prev = dict((t, r) for t, r in (st.raws[i] or []))
             if raw != b.binary_value or (tag in prev and prev[tag] != raw):
